@@ -36,6 +36,7 @@ struct FileCtx<'a> {
     features: HashSet<String>,
     ops: bool,
     deref_lets: HashSet<String>,
+    tape_fns: HashSet<String>,
     line_starts: Vec<usize>,
 }
 
@@ -130,6 +131,7 @@ struct Rewriter<'a, 'b> {
     tmp: usize,
     in_trait_impl: bool,
     rename_self: bool,
+    rng_idents: HashSet<String>,
 }
 
 fn norm_ws(s: &str) -> String {
@@ -138,7 +140,7 @@ fn norm_ws(s: &str) -> String {
 
 impl<'a, 'b> Rewriter<'a, 'b> {
     fn new(fx: &'b FileCtx<'a>) -> Self {
-        Rewriter { fx, edits: vec![], errors: vec![], loops: vec![], log: vec![], seq: 0, tmp: 0, in_trait_impl: false, rename_self: false }
+        Rewriter { fx, edits: vec![], errors: vec![], loops: vec![], log: vec![], seq: 0, tmp: 0, in_trait_impl: false, rename_self: false, rng_idents: HashSet::new() }
     }
     fn edit(&mut self, lo: usize, hi: usize, text: String, rule: &'static str) {
         self.seq += 1;
@@ -586,6 +588,14 @@ impl<'a, 'b, 'ast> Visit<'ast> for Rewriter<'a, 'b> {
         if let Stmt::Item(_) = s {
             return; // nested items are kept verbatim
         }
+        if let Stmt::Local(l) = s {
+            if let (Pat::Ident(pi), Some(init)) = (&l.pat, &l.init) {
+                let t = norm_ws(self.fx.text(init.expr.span()));
+                if t.ends_with("thread_rng()") {
+                    self.rng_idents.insert(pi.ident.to_string());
+                }
+            }
+        }
         // R9: deref after get(..).ok_or(..)?
         if let Stmt::Local(l) = s {
             if let Pat::Ident(pi) = &l.pat {
@@ -626,6 +636,16 @@ impl<'a, 'b, 'ast> Visit<'ast> for Rewriter<'a, 'b> {
                 if done {
                     return;
                 }
+                if name == "fill_bytes" {
+                    if let Expr::Path(rp) = &*mc.receiver {
+                        if let Some(id) = rp.path.get_ident() {
+                            if self.rng_idents.contains(&id.to_string()) && !self.fx.tape_fns.is_empty() {
+                                let (_, hi) = self.fx.rng(mc.paren_token.span.close());
+                                self.edit(hi - 1, hi - 1, ", Tracked(tape)".to_string(), "R10");
+                            }
+                        }
+                    }
+                }
                 if name == "try_into" && mc.args.is_empty() {
                     let (lo, hi) = self.fx.rng(mc.method.span());
                     self.edit(lo, hi, "try_into_arr".to_string(), "R12");
@@ -641,6 +661,13 @@ impl<'a, 'b, 'ast> Visit<'ast> for Rewriter<'a, 'b> {
             Expr::Call(c) => {
                 if let Expr::Path(p) = &*c.func {
                     let ps = path_str(&p.path);
+                    // R10: thread the ghost CSPRNG tape through callers of the randomness source
+                    let last = p.path.segments.last().map(|s| s.ident.to_string()).unwrap_or_default();
+                    if self.fx.tape_fns.contains(&last) {
+                        let (_, hi) = self.fx.rng(c.paren_token.span.close());
+                        let sep = if c.args.is_empty() { "" } else if c.args.trailing_punct() { " " } else { ", " };
+                        self.edit(hi - 1, hi - 1, format!("{}Tracked(tape)", sep), "R10");
+                    }
                     // <[u8; N]>::try_from(X)
                     if let Some(q) = &p.qself {
                         if ps == "try_from" {
@@ -908,6 +935,11 @@ impl<'a, 'b> Walker<'a, 'b> {
             let (_plo, phi) = self.fx.rng(sig.paren_token.span.close());
             rw.edit(phi, phi, "/*@NORET*/".to_string(), "M");
         }
+        if self.fx.tape_fns.contains(&sig.ident.to_string()) {
+            let (_, phi) = self.fx.rng(sig.paren_token.span.close());
+            let sep = if sig.inputs.is_empty() { "" } else if sig.inputs.trailing_punct() { " " } else { ", " };
+            rw.edit(phi - 1, phi - 1, format!("{}Tracked(tape): Tracked<&mut RngTape>", sep), "R10");
+        }
         let (blo, _bhi) = self.fx.rng(block.span());
         rw.edit(blo, blo, "/*@SIG*/".to_string(), "M");
         // `mut self` (by value) is not in the Verus dialect: fn f(mut self) { B }  ==>  fn f(self) { let mut self__m = self; B[self := self__m] }
@@ -1161,6 +1193,7 @@ fn main() {
     }
     let cfg: Value = serde_json::from_str(&std::fs::read_to_string(&args[1]).expect("read config")).expect("parse config");
     let deref_lets: HashSet<String> = cfg["deref_lets"].as_array().map(|a| a.iter().filter_map(|v| v.as_str().map(|s| s.to_string())).collect()).unwrap_or_default();
+    let tape_fns: HashSet<String> = cfg["tape_fns"].as_array().map(|a| a.iter().filter_map(|v| v.as_str().map(|s| s.to_string())).collect()).unwrap_or_default();
     let mut all_items: Vec<Value> = vec![];
     let mut errors: Vec<String> = vec![];
     for f in cfg["files"].as_array().expect("files") {
@@ -1188,7 +1221,7 @@ fn main() {
                 line_starts.push(i + 1);
             }
         }
-        let fx = FileCtx { src: &src, path: path.clone(), features, ops, deref_lets: deref_lets.clone(), line_starts };
+        let fx = FileCtx { src: &src, path: path.clone(), features, ops, deref_lets: deref_lets.clone(), tape_fns: tape_fns.clone(), line_starts };
         let mut w = Walker { fx: &fx, items: vec![] };
         w.walk(&ast.items, &modpath);
         all_items.extend(w.items);
